@@ -35,6 +35,7 @@ Definition threw_c (c : case) (s : ustate) (o : uop) : bool :=
   | OHref v => match set_href (parse_of c) (lower_of c) (norm_of c) clean_of s v with Some _ => false | None => true end
   | OHost v => snd (set_host (hostok_of c) (lower_of c) (norm_of c) clean_of s v)
   | OHostname v => snd (set_hostname (hostok_of c) (lower_of c) (norm_of c) clean_of s v)
+  | OProtocol p => snd (set_protocol (hostok_of c) (lower_of c) (norm_of c) clean_of s p)
   | _ => false
   end.
 
